@@ -1267,3 +1267,66 @@ pub fn gen_seq(seed: u64) -> Scenario {
     sc.id_table = gen_id_start(&mut r);
     sc
 }
+
+/// Family PAGED: searches through the PagedResults adapter against a paging server model.
+pub fn gen_paged(seed: u64) -> Scenario {
+    let mut r = Rng::new(seed);
+    let mut sc = Scenario::new("PAGED");
+    sc.knobs = gen_knobs(&mut r, false);
+    sc.knobs.net_delay_max_ms = *r.pick(&[0, 0, 1]);
+    let n = match r.below(6) {
+        0 => 0,
+        1 => 1,
+        2 => r.usize(200),
+        _ => r.usize(25),
+    };
+    sc.plan.paging = Some(PagingModel {
+        n,
+        cap: *r.pick(&[0, 0, 0, 1, 3, 7]),
+        cookie_seed: r.next_u64(),
+        empty_first_page: r.chance(1, 6),
+        supports_paging: !r.chance(1, 8),
+        final_rc: if r.chance(2, 3) { 0 } else { *r.pick(RESULT_CODES) },
+        other_ctrls: if r.chance(1, 3) { vec![Ctl { oid: gen_oid(&mut r).into_bytes(), crit: None, val: Some(b"other".to_vec()) }] } else { vec![] },
+        page_delay_ms: *r.pick(&[0, 0, 1]),
+    });
+    let nclients = if r.chance(1, 4) { 2 } else { 1 };
+    for c in 0..nclients {
+        let mut cs = ClientScript::default();
+        let searches = 1 + r.usize(2);
+        for k in 0..searches {
+            let tok = format!("c{c}p{k}");
+            sc.plan.by_token.insert(tok.clone(), ReplyPlan::Paged);
+            let size = *r.pick(&[1, 2, 3, 5, 10, 100, 1000, 0]);
+            let adapter = match r.below(4) {
+                0 => Adapter::EntriesOnlyPaged(size),
+                1 => Adapter::PagedEntriesOnly(size),
+                _ => Adapter::Paged(size),
+            };
+            let mut mods = Mods { controls: gen_req_ctrls(&mut r, "pq"), timeout_ms: if r.chance(1, 4) { Some(10_000) } else { None }, opts: None };
+            if r.chance(1, 3) {
+                mods.opts = Some(SearchOpts { deref: r.below(4) as u8, typesonly: r.chance(1, 2), timelimit: *r.pick(&[0, 30]), sizelimit: *r.pick(&[0, 1000]) });
+            }
+            if r.chance(1, 10) {
+                // a caller-supplied paging control must be refused
+                let mut cs2 = mods.controls.take().unwrap_or_default();
+                let at = r.usize(cs2.len() + 1);
+                cs2.insert(at, Ctl { oid: b"1.2.840.113556.1.4.319".to_vec(), crit: None, val: Some(crate::server::encode_paged_value(5, b"")) });
+                mods.controls = Some(cs2);
+            }
+            let search = gen_search_spec(&mut r, tok.clone());
+            cs.steps.push(Step::Open { token: tok, slot: k, search, adapter, mods });
+            let reads = if r.chance(3, 4) { n + 1 + r.usize(2) } else { r.usize(n + 1) };
+            for _ in 0..reads {
+                cs.steps.push(Step::Next { slot: k, cancel_after_polls: None });
+            }
+            cs.steps.push(Step::Finish { slot: k });
+            if r.chance(1, 3) {
+                cs.steps.push(Step::State { slot: k });
+            }
+        }
+        cs.steps.push(Step::Barrier);
+        sc.clients.push(cs);
+    }
+    sc
+}
